@@ -1301,16 +1301,25 @@ pub fn generate(cfg: &GenCfg, rng: &mut Rng) -> MSpec {
     for (i, g) in m.all_globals().iter().enumerate() {
         if (!g.mutable || f.mutable_global) && rng.chance(pe, 6) {
             m.exports.push(Export { name: unique_name("g", i, rng), kind: ExportKind::Global, index: i as u32 });
+            if rng.chance(1, 12) {
+                m.exports.push(Export { name: format!("alias_g{}", i), kind: ExportKind::Global, index: i as u32 });
+            }
         }
     }
     for i in 0..all_mems.len() {
         if rng.chance(pe, 5) {
             m.exports.push(Export { name: unique_name("m", i, rng), kind: ExportKind::Memory, index: i as u32 });
+            if rng.chance(1, 12) {
+                m.exports.push(Export { name: format!("alias_m{}", i), kind: ExportKind::Memory, index: i as u32 });
+            }
         }
     }
     for i in 0..all_tables.len() {
         if rng.chance(pe, 5) {
             m.exports.push(Export { name: unique_name("t", i, rng), kind: ExportKind::Table, index: i as u32 });
+            if rng.chance(1, 12) {
+                m.exports.push(Export { name: format!("alias_t{}", i), kind: ExportKind::Table, index: i as u32 });
+            }
         }
     }
     if rng.chance(1, 3) {
